@@ -383,9 +383,13 @@ def run(rep):
     _, r_mut = docs.run_docs(xml=[t for _, _, t in muts])
     n_ok = 0
     order_sites = []
+    matcher_sites = []
     for node, text, r in zip(cases, texts, r_valid):
         if 'exc' in r:
             key = 'C09:%s:%s' % (r['step'], cause(r.get('msg'), r['exc']))
+            if ':matcher:' in key:
+                matcher_sites.append((node, text, r, key))       # the recorded finding only where the pinned model of the matcher predicts this refusal
+                continue
             rep.finding_or_violation(key, 'schema-valid <%s> document: %s raises %s: %s' % (node['tag'], r['step'], r['exc'], (r.get('msg') or '')[:140]),
                                      {'document': text[:2500], 'step': r['step'], 'exception': r['exc'], 'message': r.get('msg')})
             continue
@@ -402,6 +406,49 @@ def run(rep):
             rep.finding_or_violation('C09:loss:%s' % kind, 'schema-valid <%s> document is altered by parse + serialise: %s' % (node['tag'], d), {'document': text[:2500], 'difference': d, 'output': r['s'][:2500]})
         else:
             n_ok += 1
+    if matcher_sites:
+        from . import extract as _ex2
+        import sys as _sys2
+        _sys2.path.insert(0, os.path.join(C.VERIF, 'tr'))
+        from schema import cls_name as _cls_name
+        mm2 = _ex2.Model()
+        try:
+            tcls2 = {}
+            for name_, tys in g['elements'].items():
+                t_ = tys[0][6:] if tys[0].startswith('<anon>') else tys[0]
+                tcls2[name_] = _cls_name(t_, 'XSDComplexType')
+
+            def elems(n_):
+                yield n_
+                for k_ in n_['kids']:
+                    yield from elems(k_)
+            per_site = []
+            flat = []
+            for node, text, r, key in matcher_sites:
+                mine = []
+                for el in elems(node):
+                    if tcls2.get(el['tag']) in mm2.idx and all(k_['tag'] in mm2.sym for k_ in el['kids']):
+                        mine.append(len(flat))
+                        flat.append({'type': tcls2[el['tag']], 'ops': [['a', k_['tag']] for k_ in el['kids']] + [['f', 0]]})
+                per_site.append(mine)
+            runs2 = mm2.run_py(flat) if flat else []
+        finally:
+            mm2.close()
+        for (node, text, r, key), mine in zip(matcher_sites, per_site):
+            exc = r['exc']
+            predicted = False
+            for i_ in mine:
+                rr = runs2[i_]
+                if any(o_['st'] == exc for o_ in rr[:-1]) or (exc == 'XMLElementChildrenRequired' and all(o_['st'] == 'ok' for o_ in rr[:-1]) and rr[-1].get('req')) or \
+                        (rr[-1]['st'] == exc):
+                    predicted = True
+                    break
+            rp = {'document': text[:2500], 'step': r['step'], 'exception': exc, 'message': r.get('msg'), 'model_predicts': predicted}
+            if predicted:
+                rep.finding_or_violation(key, 'schema-valid <%s> document: %s raises %s: %s' % (node['tag'], r['step'], exc, (r.get('msg') or '')[:140]), rp)
+            else:
+                rep.violation('schema-valid <%s> document: %s raises %s: %s (the pinned model of the matcher predicts no such refusal for any element of the document)' % (
+                    node['tag'], r['step'], exc, (r.get('msg') or '')[:140]), rp)
     if order_sites:
         from . import extract
         import sys
